@@ -110,32 +110,92 @@ WRITE_FLAGS = ("O_WRONLY", "O_RDWR", "O_CREAT", "O_TRUNC", "O_APPEND")
 
 
 def parse_strace(log, cache):
-    """File-system calls that touch a final name (<cache>/**/<key>.h5out): [(kind, src, dst, flags, ret)]."""
+    """strace -f -y log -> the calls that concern files under <cache> as operations of the Lean model Pub
+    (create / reopen / close of descriptors opened for writing, rename, unlink), in log order."""
     import re
 
-    out = []
-    rx_open = re.compile(r'^\d+\s+(openat|open|creat)\((?:AT_FDCWD, )?"([^"]*)"(?:, ([A-Z_|0-9]+))?')
-    rx_ren = re.compile(r'^\d+\s+(rename|renameat|renameat2|link|linkat)\((?:AT_FDCWD, )?"([^"]*)", (?:AT_FDCWD, )?"([^"]*)"')
-    for line in open(log, errors="replace"):
-        if FINAL + '"' not in line:
+    pending = {}
+    lines = []
+    for raw in open(log, errors="replace"):
+        m = re.match(r"^(\d+)\s+(.*)$", raw.rstrip("\n"))
+        if not m:
             continue
-        ret = line.rsplit("=", 1)[-1].strip() if "=" in line and "unfinished" not in line else "?"
-        m = rx_ren.match(line)
-        if m and m.group(3).endswith(FINAL) and os.path.realpath(m.group(3)).startswith(cache):
-            out.append((m.group(1), m.group(2), m.group(3), "", ret))
+        pid, rest = m.group(1), m.group(2)
+        if rest.endswith("<unfinished ...>"):
+            pending[pid] = rest[: -len("<unfinished ...>")]
             continue
-        m = rx_open.match(line)
-        if m and m.group(2).endswith(FINAL) and os.path.realpath(m.group(2)).startswith(cache):
-            out.append((m.group(1), None, m.group(2), m.group(3) or "", ret))
-    return out
+        r = re.match(r"^<\.\.\. \w+ resumed>(.*)$", rest)
+        if r:
+            rest = pending.pop(pid, "") + r.group(1)
+        lines.append(rest)
+    devs, dirs = {}, {}
+
+    def mk(path):
+        d, n = os.path.split(path)
+        try:
+            dev = os.stat(d).st_dev
+        except OSError:
+            dev = -1
+        return {"fs": devs.setdefault(dev, len(devs)), "dir": dirs.setdefault(d, len(dirs)), "name": n, "final": n.endswith(FINAL)}
+
+    # files elsewhere that are renamed (or are tried to be renamed) into the cache directory belong to the trace too
+    feeders = set()
+    for ln in lines:
+        m = re.match(r'^(rename|renameat|renameat2|link|linkat)\((?:AT_FDCWD<([^>]*)>, )?"([^"]*)", (?:AT_FDCWD<[^>]*>, )?"([^"]*)"', ln)
+        if m and os.path.realpath(os.path.join(m.group(2) or "/", m.group(4))).startswith(cache + os.sep):
+            feeders.add(os.path.normpath(os.path.join(m.group(2) or "/", m.group(3))))
+
+    def inside(path):
+        return os.path.realpath(path).startswith(cache + os.sep) or os.path.normpath(path) in feeders
+
+    ops, wopen = [], []
+    rx_open = re.compile(r'^(openat|open|creat)\((?:AT_FDCWD<([^>]*)>, )?"([^"]*)"(?:, ([A-Z_|0-9]+))?.*\) = (-?\d+)')
+    rx_ren = re.compile(r'^(rename|renameat|renameat2|link|linkat)\((?:AT_FDCWD<([^>]*)>, )?"([^"]*)", (?:AT_FDCWD<[^>]*>, )?"([^"]*)".*\) = (-?\d+)')
+    rx_unl = re.compile(r'^(unlink|unlinkat)\((?:AT_FDCWD<([^>]*)>, )?"([^"]*)".*\) = (-?\d+)')
+    rx_close = re.compile(r"^close\((\d+)<([^>]*)>\) = 0")
+    for ln in lines:
+        m = rx_open.match(ln)
+        if m:
+            kind, cwd, path, flags, ret = m.groups()
+            path = os.path.normpath(os.path.join(cwd or "/", path))
+            fl = (flags or "").split("|")
+            if not inside(path) or (kind != "creat" and not any(f in fl for f in ("O_WRONLY", "O_RDWR"))):
+                continue
+            if int(ret) < 0:
+                continue
+            existed_before = any(o["op"] in ("create", "reopen") and o["p"]["name"] == os.path.basename(path) for o in ops) and "O_TRUNC" not in fl
+            ops.append({"op": "reopen" if existed_before else "create", "p": mk(path), "flags": flags})
+            wopen.append((ret, path))
+            continue
+        m = rx_close.match(ln)
+        if m:
+            key = (m.group(1), os.path.normpath(m.group(2)))
+            if key in wopen:
+                wopen.remove(key)
+                ops.append({"op": "close", "p": mk(key[1])})
+            continue
+        m = rx_ren.match(ln)
+        if m:
+            kind, cwd, src, dst, ret = m.groups()
+            src, dst = os.path.normpath(os.path.join(cwd or "/", src)), os.path.normpath(os.path.join(cwd or "/", dst))
+            if inside(src) or inside(dst):
+                # a rename that fails (EXDEV) is the model's rename across file systems: no change; other failures are dropped
+                if int(ret) == 0 or "EXDEV" in ln:
+                    ops.append({"op": "rename", "p": mk(src), "q": mk(dst), "result": "EXDEV" if int(ret) else "0"})
+            continue
+        m = rx_unl.match(ln)
+        if m and int(m.group(4)) == 0:
+            path = os.path.normpath(os.path.join(m.group(2) or "/", m.group(3)))
+            if inside(path):
+                ops.append({"op": "unlink", "p": mk(path)})
+    return ops
 
 
 def publication_discipline(ctx: Ctx):
-    """A final name appears in a cache directory only by rename(2) from a name in the SAME directory: traced at system-call level
-    (strace) on real sessions of both modes, with the cache directory and the temporary directory (TMPDIR) on different file
-    systems and on the same one.  This is the model's atomic `publish` label (switch atomicPublish of Lts/Cache.lean, `pPublish`
-    of Lts/FileExec.lean) checked against what the process really asks the kernel to do; os.rename is atomic only within one
-    file system."""
+    """A final name appears in a cache directory only by rename(2) from a closed file in the SAME directory, and is never opened
+    for writing: the system calls of real sessions of both modes (strace -f -y), with the cache directory and the temporary
+    directory (TMPDIR) on one and on two file systems, are replayed through the Lean model Pub (`stepD`: the discipline of
+    theorems inv_every_prefix / finals_untouched).  This is what the atomic publish steps of Cache / FileExec rest on."""
     env0 = dict(os.environ)
     env0["PYTHONPATH"] = os.pathsep.join([os.environ.get("VERIF_REPO", "/repo"), os.path.join(VERIF, "harness"), os.path.join(VERIF, "harness", "standins")])
     shm_ok = os.path.isdir("/dev/shm") and os.access("/dev/shm", os.W_OK) and os.stat("/dev/shm").st_dev != os.stat(tempfile.gettempdir()).st_dev
@@ -155,7 +215,7 @@ def publication_discipline(ctx: Ctx):
             if tdir:
                 env["TMPDIR"] = tdir
             log, outp = os.path.join(work, "strace.log"), os.path.join(work, "out.json")
-            p = subprocess.Popen(["strace", "-f", "-qq", "-o", log, "-e", "trace=open,openat,creat,rename,renameat,renameat2,link,linkat",
+            p = subprocess.Popen(["strace", "-f", "-qq", "-y", "-o", log, "-e", "trace=open,openat,creat,close,rename,renameat,renameat2,link,linkat,unlink,unlinkat",
                                   sys.executable, "-m", "vh.pub_runner", cache, "200000", outp], env=env, cwd=work, stdin=subprocess.DEVNULL,
                                  stdout=open(os.path.join(work, "o"), "w"), stderr=open(os.path.join(work, "e"), "w"), start_new_session=True)
             try:
@@ -171,21 +231,30 @@ def publication_discipline(ctx: Ctx):
             o = json.load(open(outp))
             if not os.path.realpath(o["pin"]).startswith(os.path.realpath(os.environ.get("VERIF_REPO", "/repo")) + os.sep):
                 raise InfraError("publication runner imported executorlib from " + o["pin"])
-            calls = parse_strace(log, cache)
-            finals = sorted({c[2] for c in calls})
-            if len(finals) < 4:
-                raise InfraError("strace saw fewer than 4 final names (%s): %r" % (name, calls[:6]))
+            ops = parse_strace(log, cache)
+            finals = sorted({(x.get("q") or x["p"])["name"] for x in ops if (x.get("q") or x["p"])["final"]})
+            if any(str(v).startswith("EXC:") for v in o["values"].values()):
+                # a session that does not even complete is reported by the other parts of this check (and by C13 / C08); here only
+                # complete sessions are judged
+                ctx.count("publication.session_incomplete")
+                continue
+            if len(finals) < 4 or not any(x["op"] == "close" for x in ops):
+                raise InfraError("strace saw fewer than 4 final names or no close of a written file (%s): %r" % (name, ops[:6]))
+            mo = ctx.model.ask("pub_replay", ops=ops)
             ctx.case({"publication_layout": name}, nontrivial=True)
             ctx.count("publication.layouts")
-            for kind, src, dst, flags, ret in calls:
-                traced += 1
-                if kind in ("open", "openat", "creat"):
-                    if kind == "creat" or any(f in flags.split("|") for f in WRITE_FLAGS):
-                        bad.append({"layout": name, "syscall": kind, "path": dst, "flags": flags, "what": "final name opened for writing"})
-                elif os.path.dirname(os.path.realpath(src)) != os.path.dirname(os.path.realpath(dst)):
-                    bad.append({"layout": name, "syscall": kind, "from": src, "to": dst, "result": ret,
-                                "what": "final name created from another directory (not atomic across file systems)"})
             ctx.count("publication.final_names", len(finals))
+            for x in ops:
+                ctx.count("publication.op." + x["op"])
+            traced += len(ops)
+            if mo["accepted"] and len(mo["finals"]) < 4:
+                raise InfraError("the model ends with fewer than 4 published entries (%s): %r" % (name, mo))
+            if not mo["accepted"] or mo["invariant_fails_after"] is not None:
+                i = mo["first_bad"] if mo["first_bad"] is not None else mo["invariant_fails_after"]
+                x = ops[min(i, len(ops) - 1)]
+                what = ("final name opened for writing" if x["op"] in ("create", "reopen") else
+                        "final name created from another directory / file system, or from a file still open for writing")
+                bad.append({"layout": name, "first_call_outside_the_discipline": i, "call": x, "what": what, "calls_before": ops[max(0, i - 4):i]})
         finally:
             shutil.rmtree(work, ignore_errors=True)
             if tdir:
@@ -267,9 +336,14 @@ def body(ctx: Ctx):
     if bad:
         ctx.violation({"kind": "interactive_writer_crash", "failing_input": True},
                       {"what": "the interactive cache writer, killed at this point, leaves an accepted-but-incomplete entry or wedges the restart", "cases": bad[:3]})
-    pbad, ptraced, layouts = publication_discipline(ctx)
-    ctx.oblige("publication discipline at system-call level (strace): in %d layouts of cache directory / TMPDIR a final name (*.h5out) is only "
-               "ever created by rename from the same directory, never opened for writing" % len(layouts), not pbad, "%d calls on final names" % ptraced)
+    if ctx.violations:
+        # the kill enumeration already has a failing input: the system-call part would only wait for a file mode that is broken
+        pbad, ptraced, layouts = [], 0, []
+    else:
+        pbad, ptraced, layouts = publication_discipline(ctx)
+    ctx.oblige("correspondence at system-call level: the file-system calls (strace) of real sessions of both modes, in %d layouts of cache "
+               "directory / TMPDIR, are disciplined traces of the Lean model Pub (runD accepts; theorems inv_every_prefix, finals_untouched)"
+               % len(layouts), not pbad, "%d calls" % ptraced)
     if pbad:
         # layouts in which a final name was opened for writing first (there the entry is visible while it grows)
         order = [b["layout"] for b in pbad if "opened for writing" in b["what"]] + [b["layout"] for b in pbad]
@@ -288,7 +362,8 @@ def body(ctx: Ctx):
                           {"what": "correspondence broken, no failing input found: the code no longer publishes a cache entry by rename within "
                                    "its directory, so the model's atomic publish step (Cache.step create/write/publish with atomicPublish, "
                                    "FileExec pPublish) is not what the code does", "broken": "system-call trace vs the model's publish label",
-                           "theorems_no_longer_tied": ["ExecModel.C14.atomic_visibility", "ExecModel.C14.interactive_cache_crash_safe"],
+                           "theorems_no_longer_tied": ["ExecModel.C14Pub.inv_every_prefix", "ExecModel.C14Pub.finals_untouched", "ExecModel.C14.atomic_visibility",
+                                                       "ExecModel.C14.interactive_cache_crash_safe"],
                            "system_calls": pbad[:6]}, no_input=True)
     return {
         "publication_layouts": [l[0] for l in layouts], "final_name_syscalls": ptraced,
